@@ -209,7 +209,8 @@ pub fn braille_mathml(mathml: Element, nav_node_id: &str) -> Result<(String, usi
 //   they would need to be unshifted for the external world
 fn is_highlighted(ch: char) -> bool {
     let ch_as_u32 = ch as u32;
-    return (0x28C0..0x28FF).contains(&ch_as_u32);           // 0x28C0..0x28FF all have dots 7 & 8 on
+    // 0x28C0..0x28FF all have dots 7 & 8 on, but the row separator the Nemeth and Vietnam rules write ('⣍') is content, not a highlight
+    return (0x28C0..0x28FF).contains(&ch_as_u32) && ch != '⣍';
 }
 
 fn highlight(ch: char) -> char {
